@@ -18,6 +18,10 @@ COMPS = [
     V.Component("v6addr", harness="v6pool", monitors=MON, exec_env={"V6POOL_KIND": "addr"}),
     V.Component("v6prefix", harness="v6pool", monitors=MON, exec_env={"V6POOL_KIND": "prefix"}),
     V.Component("pppoepool", monitors=MON),
+    # what dhcpv6.NewPrefixPool / NewAddressPool BUILD, for every legal geometry (dhcp6 harness, constructor ops only):
+    # a free list with a repeated entry hands one prefix to two clients although every allocation step is right
+    V.Component("dhcp6pools", harness="dhcp6", drv="dhcp6", monitors=["pool-distinct", "pool-inside"], kind="gotest",
+                gen_args=["-only", "pools"]),
     V.Component("localpool", monitors=MON),
     # two/three PeerPool nodes with health flips: per-node counts, and releases that free nothing ("leak")
     V.Component("peercluster", monitors=MON + ["leak"]),
